@@ -30,6 +30,7 @@ extern crate enum_display_derive;
 #[path = "/repo/src/example_hardware.rs"] mod example_hardware;
 
 mod rng;
+mod dict;
 mod common;
 mod layouts;
 mod mapper_mon;
